@@ -196,9 +196,20 @@ package environment
 //@   on call .SetRuntimeVar when arg0 == "run_end_completion_time_ms" : assert sawCompGet && compEmpty
 //@   ensures sawEndGet ==> sawCompGet
 
+// C03: when the workflow reports ERROR the watcher drives the environment to ERROR: GO_ERROR, and if that is refused and
+// the state is not ERROR already, the state is forced.
 //@ closure (*Environment).subscribeToWfState #1#1
 //@   property C01 C03
 //@   requires wfState == sm.ERROR
+//@   ghostvar asked bool = false
+//@   ghostvar goErr bool = false
+//@   ghostvar isErr bool = false
+//@   ghostvar forced bool = false
+//@   on call (*Environment).TryTransition : assert !asked ; asked = true
+//@   on aftercall (*Environment).TryTransition : goErr = (result != nil)
+//@   on aftercall (*fsm.FSM).Current : isErr = (result == "ERROR")
+//@   on call (*Environment).setState : assert asked && goErr && !isErr ; forced = true
+//@   ensures asked && (!goErr || isErr || forced)
 
 //@ closure (*Environment).subscribeToWfState #1
 //@   property C01 C03
